@@ -18,6 +18,7 @@ import (
 	_ "verif/mc/drivers/c14"
 	_ "verif/mc/drivers/c15"
 	_ "verif/mc/drivers/c16"
+	_ "verif/mc/drivers/c17"
 	_ "verif/mc/drivers/c18"
 	_ "verif/mc/drivers/c19"
 	_ "verif/mc/drivers/c20"
